@@ -210,7 +210,7 @@ def gen_sequences(ctx):
                ["f4", "90", "8080"], ["e2", "", "82", "", "ac"], ["", "", ""], [""], ["41", "ff", "ff"],
                ["f0908080", "f48fbfbf", "f4908080"], ["ed9fbf", "eda080"], ["efbfbf", "ee8080", "c0"]):
         seqs.append(("handpicked", [bytes.fromhex(x) for x in cs]))
-    n = 1200 if ctx.tier == "quick" else 7000
+    n = 900 if ctx.tier == "quick" else 16000
     for _ in range(n):
         b, kind = gen_body(rng, ctx.tier)
         _, _, off = cpython_ref(b)
@@ -225,9 +225,8 @@ def gen_sequences(ctx):
 def gen_enum(ctx):
     items = [("", 0), ("", 1), ("", 2)]
     if ctx.tier == "quick":
-        firsts = ["00", "41", "7f", "80", "bf", "c0", "c1", "c2", "df", "e0", "e1", "ec", "ed", "ee", "ef", "f0", "f1",
-                  "f3", "f4", "f5", "ff"]
-        four = ["f08f", "f090", "f0bf", "f180", "f3bf", "f480", "f48f", "f490"]
+        firsts = ["41", "80", "bf", "c1", "c2", "df", "e0", "e1", "ed", "ef", "f0", "f1", "f4", "f5"]
+        four = ["f08f", "f090", "f1bf", "f480", "f48f", "f490"]
     else:
         firsts = ["%02x" % i for i in range(256)]
         four = ["%02x%02x" % (a, b) for a in (0xf0, 0xf1, 0xf2, 0xf3, 0xf4)
@@ -287,9 +286,13 @@ def judge_batch(ctx, pairs):
 
 
 def shrink(ctx, scratch, mode, impl, internal, chunks, reason):
-    """greedy reduction of a failing chunk list, keeping the same reason"""
+    """greedy reduction of a failing chunk list, keeping the same reason (stops when the tier's time budget runs low)"""
+    import time
     cur = list(chunks)
+    budget = 60 if ctx.tier == "quick" else 600
     for _ in range(14):
+        if time.time() - ctx.t0 > budget:
+            break
         cands = []
         for i in range(len(cur)):
             cands.append(cur[:i] + cur[i + 1:])                       # drop a chunk
@@ -321,12 +324,9 @@ def shrink(ctx, scratch, mode, impl, internal, chunks, reason):
     return cur
 
 
-ENUM_REASON = {("A", "P"): "ends-on-code-point-wrong", ("P", "A"): "ends-on-code-point-wrong"}
-
-
 def enum_reason(exp, got):
     if got == "x":
-        return "result-shape-wrong"
+        return "single-call-indices-disagree-or-shape-wrong"
     if exp in "AP" and got in "AP":
         return "ends-on-code-point-wrong"
     if exp in "AP":
@@ -341,7 +341,7 @@ def enum_reason(exp, got):
 def run(ctx):
     res = core.Result()
     res.rule = ("(a) every live state (witness prefix) x every byte x 9 characterising continuations as 3-call sequences; "
-                "(b) every byte string of length <=2 (quick: + 3-byte strings under 21 first bytes; thorough: all 3-byte "
+                "(b) every byte string of length <=2 (quick: + 3-byte strings under 14 first bytes; thorough: all 3-byte "
                 "strings) and all 4-byte strings under selected 2-byte prefixes, one call on a fresh validator; "
                 "(c) generated strings of 0..1500 (thorough: ..30000) boundary-biased scalars with at most one injected fault "
                 "(overlong/surrogate/>10FFFF/stray continuation/truncated tail), each under whole/bytewise/random chunkings "
@@ -375,7 +375,7 @@ def _run(ctx, res, scratch, internal):
     ctx.log(f"{len(seqs)} call sequences, {len(enum_items)} enumeration blocks; NVX rebuilt (internal entry points: {internal})")
 
     # ---- run the implementations
-    nproc = 1 if replay else 12
+    nproc = 1 if replay else 10
     heavy_enum = [it for it in enum_items if it[1] == 2]
     light_enum = [it for it in enum_items if it[1] < 2]
         # impl 1/3/4 reach the same table loop through the same dispatcher as the default: they are swept on the transition
@@ -419,7 +419,9 @@ def _run(ctx, res, scratch, internal):
                                                               for s in range(9)])
     gen_cells = [int(x) for x in rows[0].split(",")]
     consts = [int(x) for x in rows[1].split()]
-    if live_table is not None and (gen_cells != live_table[0] or consts[:2] != live_table[1]):
+    if live_table is not None and live_table[0] is None:
+        res.notes.append("utf8validator.py no longer has a module-level UTF8VALIDATOR_DFA: translator self-check skipped")
+    elif live_table is not None and (gen_cells != live_table[0] or consts[:2] != live_table[1]):
         res.correspondence_breaks.append({"stream": "translator self-check: generated tablePy vs live UTF8VALIDATOR_DFA",
                                           "first_difference": next((i for i, (a, b) in enumerate(zip(gen_cells, live_table[0])) if a != b), None),
                                           "generated_len": len(gen_cells), "live_len": len(live_table[0])})
